@@ -155,6 +155,18 @@ class Engine:
                 return V(CLS, ("class", fr.file, name))
             if name in mod.externs:
                 return mod.externs[name]
+            if name in mod.imports:
+                kind, file2, nm = mod.imports[name]
+                if file2 in self.modules:
+                    m2 = self.modules[file2]
+                    if nm in m2.functions:
+                        return V(FN, ("func", file2, nm))
+                    if nm in m2.classes:
+                        return V(CLS, ("class", file2, nm))
+                    if nm in m2.consts:
+                        return const(m2.consts[nm])
+            if name in self.extern_names:
+                return self.extern_names[name]
         if name in ("int", "float", "bool", "str", "list", "tuple", "dict", "set", "bytes", "bytearray", "object"):
             return V(CLS, ("builtin", name))
         if exc_class(name):
@@ -226,6 +238,9 @@ class Engine:
             yield s1, self.get_attr(base, e.attr, s1, e)
 
     def get_attr(self, base, attr, st, node=None):
+        if base.k == "cell" and isinstance(base.t, Obj):
+            v = base.t.fields[attr]
+            return V("cell", self.spec_old.heap[v.t]) if v.k == REF and self.spec_old is not None else v
         if base.k == REF:
             cell = st.heap[base.t]
             if isinstance(cell, Obj):
@@ -270,6 +285,7 @@ class Engine:
 
     ext_attrs = {}
     module_attrs = {}
+    extern_names = {}
 
     # ---- operators
     def e_UnaryOp(self, e, st):
@@ -845,7 +861,10 @@ class _CallMixin:
                 outs = list(self.eval(e.args[0], saved))
             finally:
                 self.spec_old = saved
-            return outs[0][1]
+            r = outs[0][1]
+            if r.k == REF:
+                return V("cell", saved.heap[r.t])
+            return r
         args = []
         for a in e.args:
             outs = list(self.eval(a, st))
@@ -1319,7 +1338,7 @@ class _CallMixin:
                 yield from hook(self, base, pos, st, node)
                 return
         if attr == "encode":
-            yield st, V("bytes", s)
+            yield st, V(STR, s, "bytes")
             return
         hook = self.hooks.get("str." + attr)
         if hook:
